@@ -80,6 +80,8 @@ def jobs(prop, tier):
             return [SE(c + "_edge", 2, rate=(0.1 if c == "sync_entry_pre" else 1.0)) for c in ent] + [SE("sync_sc_edge", 2, rate=0.05), SE("sync_3_edge", 3, rate=0.002)]
         return [SM(c) for c in ent] + [SE(c + "_edge", 2) for c in ent] + [SE("sync_sc_edge", 2, rate=0.5), SE("sync_3_edge", 3, rate=0.03),
                                                                          SE("sync_basic_edge", 2, rate=0.3)]
+    if prop == "C14":
+        return [dict(mode="edge", cfg="codec", kind="codec", n=0, rate=1.0, tool="codeccheck", dump_module="OrdaCodec.tla", prefix="CODEC")]
     if prop == "C12":
         tr = dict(mode="trace", cfg="sync_trace", module="OrdaSyncTrace.tla", tool="concdriver", kind="counter")
         if q:
@@ -162,7 +164,15 @@ def jobs(prop, tier):
 
 
 def level(prop):
-    return "model_checking"
+    return "exploration" if prop == "C14" else "model_checking"
+
+
+def rule(prop):
+    if prop == "C14":
+        return ("TLC enumerates the grid operation type x value class x batch position of spec/OrdaCodec.tla (every point is one initial state); "
+                "a point is non-trivial if the real local call emitted an operation; each point is sent through five encode/decode paths; "
+                "points are distinct by construction")
+    return None
 
 
 def assumptions(prop):
